@@ -12,7 +12,7 @@ const PSIG: [&str; 9] = ["a", " ", "=", ":", "#", "!", "\\", "é", "\n"];
 pub fn bounds(tier: Tier) -> Value {
     match tier {
         Tier::Quick => json!({"text_len": 5, "hex_upto": 65535, "json_depth": 2, "json_width": 2, "props_key_len": 2, "props_value_len": 2}),
-        Tier::Thorough => json!({"text_len": 6, "hex_upto": 1048576, "json_depth": 3, "json_width": 2, "props_key_len": 2, "props_value_len": 3}),
+        Tier::Thorough => json!({"text_len": 7, "hex_upto": 16777216, "json_depth": 3, "json_width": 2, "props_key_len": 2, "props_value_len": 4}),
     }
 }
 
@@ -346,7 +346,7 @@ pub fn worker(w: &mut Worker) {
         }};
     }
     // texts
-    let tl = tier.pick(5usize, 6usize);
+    let tl = tier.pick(5usize, 7usize);
     for t in Strings::new(&TSIG[..], 0, tl) {
         if !w.take() {
             continue;
@@ -359,7 +359,7 @@ pub fn worker(w: &mut Worker) {
         run!(json!({"kind": "text", "text": t}), nt, ("text", t.len()), text_roundtrip(&mut s, &t));
     }
     // integers
-    let hi = tier.pick(65535u64, 1 << 20);
+    let hi = tier.pick(65535u64, 1 << 24);
     let mut ints: Vec<u64> = (0..=hi).collect();
     for k in 0..=64u32 {
         let p: u128 = 1u128 << k;
@@ -402,7 +402,7 @@ pub fn worker(w: &mut Worker) {
         }
     }
     // properties
-    let vl = tier.pick(2usize, 3usize);
+    let vl = tier.pick(2usize, 4usize);
     let keys: Vec<String> = Strings::new(&PSIG[..], 1, 2).map(|v| v.concat()).collect();
     let values: Vec<String> = Strings::new(&PSIG[..], 0, vl).map(|v| v.concat()).collect();
     for k in &keys {
